@@ -135,6 +135,24 @@ def apply_edit(file: Any, kind: str) -> bool:
                 d.inline_comment = None
                 return True
         return False
+    if kind == 'delrun':
+        # a run of two directives deleted through the filtered view: whatever else lies between them (a standalone comment) is not theirs
+        n = len(file.directives)
+        if n < 2:
+            return False
+        a = 1 if n >= 3 else 0
+        # preferably a run with a standalone comment inside it
+        seen = 0
+        raw = list(file.raw_directives_with_comments)
+        for i, x in enumerate(raw):
+            if type(x).__name__ == 'BlockComment':
+                if 0 < seen < n and any(type(y).__name__ != 'BlockComment' for y in raw[i + 1:]):
+                    a = seen - 1
+                    break
+            else:
+                seen += 1
+        del file.directives[a:a + 2]
+        return True
     if kind == 'same':
         for t in O.store_tokens(file.token_store):
             if type(t).__name__ == 'Account':
@@ -296,7 +314,7 @@ def _run(case: dict, res: Result, tmp: str) -> Result:
         if mode == 'single':
             with ed.edit_file(arg) as f:
                 for e in edits:
-                    if e['kind'] in ('append', 'tokval', 'same', 'read', 'comment', 'uncomment'):
+                    if e['kind'] in ('append', 'tokval', 'same', 'read', 'comment', 'uncomment', 'delrun'):
                         if apply_edit(f, e['kind']):
                             changed.add(os.path.normpath(root))
                 if will_raise:
@@ -328,7 +346,7 @@ def _run(case: dict, res: Result, tmp: str) -> Result:
                     if not names:
                         break
                     name = names[e.get('file', 0) % len(names)]
-                    if e['kind'] in ('append', 'tokval', 'same', 'read', 'comment', 'uncomment'):
+                    if e['kind'] in ('append', 'tokval', 'same', 'read', 'comment', 'uncomment', 'delrun'):
                         if apply_edit(fs[key_of(name)], e['kind']):
                             changed.add(name)
                     elif e['kind'] == 'remove' and spelling == 'symlink' and os.path.normpath(name) == os.path.normpath(root):
@@ -365,7 +383,7 @@ def _run(case: dict, res: Result, tmp: str) -> Result:
                 if not names:
                     break
                 name = names[e.get('file', 0) % len(names)]
-            if e['kind'] in ('append', 'tokval', 'same', 'read', 'comment', 'uncomment'):
+            if e['kind'] in ('append', 'tokval', 'same', 'read', 'comment', 'uncomment', 'delrun'):
                 if apply_edit(models_h[name], e['kind']):
                     effective.setdefault(name, []).append(e['kind'])
             elif e['kind'] == 'remove' and spelling == 'symlink' and os.path.normpath(name) == os.path.normpath(root):
@@ -403,7 +421,7 @@ def _run(case: dict, res: Result, tmp: str) -> Result:
                 any_cr = True
                 classes.add('cr-content-edited')
             # independent of the library's own tokenisation: none of these edits touches a line end, so every carriage return must survive
-            if b1.count(b'\r') < b0.count(b'\r'):
+            if b1.count(b'\r') < b0.count(b'\r') and 'delrun' not in effective.get(name, ()):   # (deleted lines take their line ends with them)
                 res.bad('content:carriage-returns-lost', f'{name}: the file had {b0.count(13)} carriage returns before the edit and has {b1.count(13)} after; '
                         f'before {b0[:200]!r} after {b1[:200]!r}')
             elif b1 != expected_text[name].encode('utf-8'):
@@ -417,7 +435,8 @@ def _run(case: dict, res: Result, tmp: str) -> Result:
                 kind = effective[name][0]
                 w0, w1 = _diff_windows(b0, b1)
                 classes.add('shape:' + kind)
-                ok = (w0 == b'' if kind == 'append' else
+                ok = (_delrun_shape(b0, b1) if kind == 'delrun' else
+                      w0 == b'' if kind == 'append' else
                       (not w0.strip(b'0123456789-/') and not w1.strip(b'0123456789-/')) or w0 == b'' if kind == 'tokval' else
                       w1 == b'' and re.fullmatch(rb'[ \t]*;[^\r\n]*', w0) is not None if kind == 'uncomment' else
                       b'\n' not in w0 and b'\n' not in w1)
@@ -469,6 +488,31 @@ def _diff_windows(b0: bytes, b1: bytes) -> tuple:
     while j < n and r0[len(r0) - 1 - j] == r1[len(r1) - 1 - j]:
         j += 1
     return r0[:len(r0) - j], r1[:len(r1) - j]
+
+
+def _delrun_shape(b0: bytes, b1: bytes) -> bool:
+    """What deleting directives may do to the bytes: nothing new appears (every line of the new file is a line of the old one), and every
+    standalone comment block of the old file - unindented comment lines with a blank line or a file boundary on both sides, which belong to no
+    directive by the documented order - is still there."""
+    import collections
+    l0, l1 = b0.split(b'\n'), b1.split(b'\n')
+    c0, c1 = collections.Counter(x.rstrip(b'\r') for x in l0), collections.Counter(x.rstrip(b'\r') for x in l1)
+    if any(c1[k] > c0[k] for k in c1 if k.strip()):
+        return False
+    blank = lambda i: i < 0 or i >= len(l0) or not l0[i].strip()   # noqa: E731
+    need: collections.Counter = collections.Counter()
+    i = 0
+    while i < len(l0):
+        if l0[i].startswith(b';'):
+            j = i
+            while j < len(l0) and l0[j].startswith(b';'):
+                j += 1
+            if blank(i - 1) and blank(j):
+                need.update(x.rstrip(b'\r') for x in l0[i:j])
+            i = j
+        else:
+            i += 1
+    return all(c1[k] >= v for k, v in need.items())
 
 
 # --------------------------------------------------------------------------- generation
@@ -523,11 +567,15 @@ def _build(tier: str):
             order = list(range(len(lines_groups)))
             chunks = [c2 for c2 in (gg.join_lines(lines_groups[i]) for i in order) if c2]
             text = L.text_of(L.merge_comments(chunks))
+            if g.p(0.3) and (text == '' or text.endswith('\n')):
+                # two directives with a standalone comment between them (the target of the 'delrun' edit)
+                nl = '\r\n' if style == 'crlf' else '\n'
+                text += nl.join(['2001-01-01 open Assets:Zz', '', '; standalone, between two directives', '', '2001-01-02 close Assets:Zz', ''])
             files[name] = {'text': text, 'includes': incs}
         # globs must match something: '??.bean' needs a two-letter file in that directory
         edits = []
         for _ in range(g.pick([0, 1, 1, 2, 3])):
-            k = g.pick(['append', 'tokval', 'tokval', 'comment', 'comment', 'uncomment', 'same', 'read'] + ([] if single else ['remove', 'add']))
+            k = g.pick(['append', 'tokval', 'tokval', 'comment', 'comment', 'uncomment', 'delrun', 'delrun', 'same', 'read'] + ([] if single else ['remove', 'add']))
             e: dict = {'kind': k, 'file': g.n(0, 5)}
             if k == 'add':
                 e['name'] = g.pick(['new.bean', 'sub/new.bean', 'brand/new/x.bean'])
